@@ -18,7 +18,7 @@
 From Coq Require Import List NArith Bool.
 Import ListNotations.
 From L4 Require Import Common.FSRoll Common.LockSerial Model.Rolling
-  Proofs.Rolling Proofs.RollingStream Proofs.RollingConc.
+  Proofs.Rolling Proofs.RollingStream Proofs.RollingConc Model.RollingBg Proofs.RollingBg.
 
 (* For every append-mode history, trigger and roller: the acknowledged stream
    (pre-existing content, then the records in call order) splits as
@@ -177,4 +177,73 @@ Example C05_example_schedule :
   /\ map (fun t => length (todo sh (list bytes) (threads sh (list bytes) st t))) [0;1;2] = [0;0;0]
   /\ map (fun n => lookup (files (fst (shared sh (list bytes) st))) n) [Active; Arch 0; Arch 1]
      = [Some [66]%N; Some [67;68;65]%N; None].
+Proof. vm_compute. repeat split; reflexivity. Qed.
+
+(* ---- background rotation (`background_rotation` feature) ----
+   Model/RollingBg.v: the appender's file-system calls (derived from the model
+   above by `prog_of`: open/create/truncate, one write per chunk, and for a roll
+   `move_file(active, temp)` then `wait ready; spawn rotate(temp)`) interleaved,
+   under ANY schedule, with the rename steps of the rotation thread; `ts i` is
+   the temp name picked by operation i; `bad` = a temp name that already exists
+   was picked or a file that is not there was rolled (make_temp_file_name's loop
+   and the appender exclude both).
+   At every quiescent point (program done, no rotation in flight) the directory is
+   exactly the synchronous model's, so every theorem above applies to it. *)
+Theorem C05_background_quiescent_is_sync :
+  forall c a0 pre ops (ts : nat -> nat) (sch : list bool) s',
+    let b := fst (bk_of (roll_by c)) in
+    let k := snd (bk_of (roll_by c)) in
+    let prog := prog_of c (Restart a0 :: ops) (raw pre) ts 0 in
+    run_bg b k sch prog (bg_init (to_store (init_fs pre))) = ([], s') ->
+    infl s' = [] -> bad s' = false ->
+    forall n, bfiles s' n = to_store (files (fst (run c a0 pre ops))) n.
+Proof. exact bg_history_quiescent. Qed.
+Print Assumptions C05_background_quiescent_is_sync.
+
+(* ... and at ANY moment of ANY schedule, completing the rotation in flight and
+   the spawn that is waiting for it (`norm`) gives the synchronous directory
+   after the file-system calls made so far (`done`): nothing is lost, duplicated
+   or reordered by the interleaving itself; what is not yet in its archive slot
+   sits whole in a temp file. *)
+Theorem C05_background_anytime :
+  forall c a0 pre ops (ts : nat -> nat) (sch : list bool) rest s',
+    let b := fst (bk_of (roll_by c)) in
+    let k := snd (bk_of (roll_by c)) in
+    let prog := prog_of c (Restart a0 :: ops) (raw pre) ts 0 in
+    run_bg b k sch prog (bg_init (to_store (init_fs pre))) = (rest, s') -> bad s' = false ->
+    exists done, prog = done ++ rest
+      /\ forall n, norm b k rest s' n = sync_exec b k done (to_store (init_fs pre)) n.
+Proof. exact bg_history_anytime. Qed.
+Print Assumptions C05_background_anytime.
+
+(* the synchronous program semantics used above is the model's: after any history
+   the model's directory is the `sync_exec` of its own file-system calls *)
+Theorem C05_background_program_is_model :
+  forall c ops s (ts : nat -> nat) i n,
+    to_store (files (fst (run_ops c ops s))) n
+    = sync_exec (fst (bk_of (roll_by c))) (snd (bk_of (roll_by c))) (prog_of c ops s ts i) (to_store (files s)) n.
+Proof. exact prog_of_sync. Qed.
+Print Assumptions C05_background_program_is_model.
+
+(* Non-vacuity: size trigger 2, window(0,2), three records.  (i) the foreground runs
+   ahead: after 7 of its calls and one background step two temp files exist (temp 1
+   in flight, temp 2 renamed, its spawn blocked); (ii) a schedule that lets both
+   threads finish ends in the synchronous model's directory. *)
+Example C05_example_background :
+  let c := {| trig := TSize 2; roll_by := Window 0 2 |} in
+  let ops := [Append [[49;50;51]%N]; Append [[52;53;54]%N]; Append [[55]%N]] in
+  let prog := prog_of c (Restart true :: ops) (raw None) (fun i => i) 0 in
+  let names := [BActive; BArch 0; BArch 1; BArch 2; BTemp 1; BTemp 2] in
+  let mid := run_bg 0 1 (repeat true 7 ++ [false]) prog (bg_init (to_store (init_fs None))) in
+  let fin := run_bg 0 1 (repeat true 20 ++ repeat false 20 ++ repeat true 20 ++ repeat false 20) prog
+               (bg_init (to_store (init_fs None))) in
+  prog = [MOpen false; MWrite [49;50;51]%N; MRename 1; MSpawn 1; MOpen false; MWrite [52;53;54]%N;
+          MRename 2; MSpawn 2; MOpen false; MWrite [55]%N]
+  /\ fst mid = [MSpawn 2; MOpen false; MWrite [55]%N]
+  /\ infl (snd mid) = [SRen (BTemp 1) (BArch 0)] /\ bad (snd mid) = false
+  /\ map (bfiles (snd mid)) names = [None; None; None; None; Some [49;50;51]%N; Some [52;53;54]%N]
+  /\ fst fin = [] /\ infl (snd fin) = [] /\ bad (snd fin) = false
+  /\ map (bfiles (snd fin)) names = [Some [55]%N; Some [52;53;54]%N; Some [49;50;51]%N; None; None; None]
+  /\ map (fun n => lookup (files (fst (run c true None ops))) n) [Active; Arch 0; Arch 1; Arch 2]
+     = [Some [55]%N; Some [52;53;54]%N; Some [49;50;51]%N; None].
 Proof. vm_compute. repeat split; reflexivity. Qed.
